@@ -84,6 +84,9 @@ func genTable(conc bool) func(r *prng) *plan {
 				for k := 0; k < r.intn(4); k++ {
 					o.N = append(o.N, int64(r.intn(nn)), int64(r.intn(4)))
 				}
+				if r.chance(10) {
+					o.N = append(o.N, -1, 0) // the queried peer names the local node itself
+				}
 				p.Ops = append(p.Ops, o)
 			default:
 				if r.chance(30) {
@@ -625,6 +628,9 @@ type opRet struct {
 func (ts *tableSim) exec(op opSpec) opRet {
 	w := ts.w
 	nodeOf := func(i, rec int64) *enode.Node {
+		if i < 0 {
+			return ts.self
+		}
 		return ts.nodes[int(i)%len(ts.nodes)].recs[int(rec)%4]
 	}
 	switch op.K {
@@ -965,7 +971,10 @@ func (ts *tableSim) applyOp(m, post *mstate, op opSpec, ret opRet, hooks *[]hook
 			}
 		}
 		for k := 2; k+1 < len(op.N); k += 2 {
-			n := ts.nodes[int(op.N[k])%len(ts.nodes)].recs[int(op.N[k+1])%4]
+			n := ts.self // a negative index: the report names the local node
+			if op.N[k] >= 0 {
+				n = ts.nodes[int(op.N[k])%len(ts.nodes)].recs[int(op.N[k+1])%4]
+			}
 			ts.mAdd(m, post, n, false, false)
 		}
 	}
